@@ -94,7 +94,9 @@ Theorem gen_matches_model :
   gen_change_threshold = change_threshold /\ gen_max_keep = max_keep /\ gen_max_oracles = max_oracles /\
   gen_power_reduction = power_reduction /\
   (gen_writer_sites = expected_writer_sites \/ gen_writer_sites = expected_writer_sites_repaired) /\
-  gen_raw_key_users = expected_raw_key_users.
+  gen_raw_key_users = expected_raw_key_users /\
+  (* SetLastTotalPower, slashing, UpdateProposalOracles and the model's online_power sum over EVERY record *)
+  gen_getalloracles_loop = "for init=false; iterator.Valid(); iterator.Next(); early exits=0".
 Proof. repeat split; first [reflexivity | left; reflexivity | right; reflexivity]. Qed.
 
 (* the end blocker as harness/gen_c07 reads it from abci.go: what the three loops hand to SlashOracle, the calls of
